@@ -264,7 +264,7 @@ impl FormFilter for (Option<i64>, String)
 fn expr(v: i64, rng: &mut Rng, d: &mut Defs, allow_defer: bool) -> (String, &'static str)
 {
 	if v == i64::MIN {return (lit(v, rng), "literal");}   // not writable as one literal in a `.const`
-	let pick = rng.below(if allow_defer {15} else {9});
+	let pick = rng.below(if allow_defer {17} else {9});
 	match pick
 	{
 		0 | 1 => (lit(v, rng), "literal"),
@@ -349,6 +349,27 @@ fn expr(v: i64, rng: &mut Rng, d: &mut Defs, allow_defer: bool) -> (String, &'st
 				Some(fv) => {let _ = write!(d.after, ".const {name}, {fv}; "); (text, "forward")},
 				None => {let _ = write!(d.after, ".const {name}, {v}; "); (name, "forward")},
 			}
+		},
+		15 | 16 if v.unsigned_abs() < 1 << 40 =>
+		{
+			// nested remainders with negative inner / outer divisors over a name declared `.global` and defined below
+			d.n += 1;
+			let name = format!("gm{}", d.n);
+			let fv = rng.range(-500, 500);
+			let ys = [-8i64, 8, -3, 3, -16, 5, -5, 4, -4, 7];
+			let (y, z) = (*rng.pick(&ys), *rng.pick(&ys));
+			let (inner, iv) = match rng.below(4)
+			{
+				0 => (format!("(({name} % {y}) % {z})"), (fv % y) % z),
+				1 => (format!("((({name} % {y}) % {z}) % {y})"), ((fv % y) % z) % y),
+				2 => (format!("(({name} % {y}) % {z} % 2)"), ((fv % y) % z) % 2),
+				_ => (format!("((({name} + 1) % {y}) % {z})"), ((fv + 1) % y) % z),
+			};
+			let k = v - iv;
+			let text = if k >= 0 {format!("{inner} + {k}")} else {format!("{inner} - {}", -(k as i128))};
+			let _ = write!(d.before, ".global {name}; ");
+			let _ = write!(d.after, ".const {name}, {fv}; ");
+			(text, "nested remainders")
 		},
 		12 | 13 | 14 if v.unsigned_abs() < 1 << 40 =>
 		{
